@@ -22,7 +22,7 @@ ASSUMPTIONS = ["documented exception types: ParseError, SsbCompilerError, ValueE
 
 def shards(tier, seed):
     n = 25 if tier == "quick" else 500
-    out = [{"kind": "degenerate", "seed": seed}, {"kind": "imports", "seed": seed, "n": 6 if tier == "quick" else 60}]
+    out = [{"kind": "degenerate", "seed": seed}, {"kind": "imports", "seed": seed, "n": 12 if tier == "quick" else 120}]
     for s in shard_seeds(seed, 14, "C10"):
         out.append({"kind": "mutate", "seed": s, "n": n, "depth": 2})
     return out
@@ -165,8 +165,9 @@ def run_imports(shard, acc, rnd):
             d = os.path.join(base, f"t{i}")
             os.makedirs(os.path.join(d, "lib"))
             os.makedirs(os.path.join(d, "look"))
-            kind = ["cycle2", "cycle3", "self", "routine_in_import", "routine_in_nested_import", "missing_nested", "ok_diamond",
-                    "routine_in_lookup_import"][i % 8]
+            kinds = ["cycle2", "cycle3", "self", "routine_in_import", "routine_in_nested_import", "missing_nested", "ok_diamond",
+                     "routine_in_lookup_import", "missing_lookup_after_ok", "missing_lookup_after_ok_nested", "missing_rel_after_ok", "cycle4_through_lookup"]
+            kind = kinds[i % len(kinds)]
             files = {}
             main = "def 0 { op_1(); }\n"
             must = kind
@@ -196,6 +197,22 @@ def run_imports(shard, acc, rnd):
             elif kind == "missing_nested":
                 main = 'import "./lib/a.exps";\n' + main
                 files["lib/a.exps"] = 'import "./gone.exps";\nmacro ma() { x(); }\n'
+            elif kind == "missing_lookup_after_ok":
+                main = 'import "./lib/a.exps";\nimport "not_in_any_lookup_dir.exps";\n' + main
+                files["lib/a.exps"] = 'macro ma() { x(); }\n'
+            elif kind == "missing_lookup_after_ok_nested":
+                main = 'import "./lib/a.exps";\n' + main
+                files["lib/a.exps"] = 'import "c.exps";\nimport "not_in_any_lookup_dir.exps";\nmacro ma() { x(); }\n'
+                files["look/c.exps"] = 'macro mc() { z(); }\n'
+            elif kind == "missing_rel_after_ok":
+                main = 'import "c.exps";\nimport "./lib/gone.exps";\n' + main
+                files["look/c.exps"] = 'macro mc() { z(); }\n'
+            elif kind == "cycle4_through_lookup":
+                main = 'import "c.exps";\n' + main
+                files["look/c.exps"] = 'import "../lib/a.exps";\nmacro mc() { z(); }\n'
+                files["lib/a.exps"] = 'import "./b.exps";\nmacro ma() { x(); }\n'
+                files["lib/b.exps"] = 'import "./d.exps";\nmacro mb() { y(); }\n'
+                files["lib/d.exps"] = 'import "c.exps";\nmacro md() { y(); }\n'
             elif kind == "ok_diamond":
                 must = None
                 main = 'import "./lib/a.exps";\nimport "./lib/b.exps";\ndef 0 { ~ma(); ~mb(); }\n'
